@@ -127,6 +127,7 @@ def check(ctx):
                          replay={"order": m, "N": N, "n": n, "nx": nx, "row": r, "col": int(c), "impl": g, "expected": [row, col]}, has_input=True)
                 break
 
+    facade_cutoff_recovery(ctx, np.random.default_rng(ctx.seed + 31))
     # ---- recovery of ground truths
     nbatch_settings = [None] if ctx.quick else [None, 2]
     for cname, diag in solver_cells(ctx.quick):
@@ -206,3 +207,63 @@ def check(ctx):
             if not err <= 1e-6:
                 ctx.fail("oracle", key, f"{sc['name']}: admissible fc{m} drawn from the independent reference space (dimension {Q.shape[1]}, basis has {P.nb[m]}) is not recovered from exact forces (relative error {err:.2e})",
                          replay={**P.describe(), "order": m, "truth": "random vector of the reference admissible space", "rel_err": err}, has_input=True)
+
+
+def facade_cutoff_recovery(ctx, rng):
+    """Recovery through the facade with a per-order cutoff dictionary: the ground truth of each order is drawn from the basis
+    set class of that order built directly with that order's own radius; the fit goes through Symfc(cutoff={...}).run()."""
+    from symfc import Symfc
+    from symfc.basis_sets import FCBasisSetO2, FCBasisSetO3, FCBasisSetO4
+    from gens import atoms_of, base_cells, make_supercell
+    from reference import min_image_distances
+
+    classes = {2: FCBasisSetO2, 3: FCBasisSetO3, 4: FCBasisSetO4}
+    for cname, diag in [("mono_P", (2, 1, 1))] + ([] if ctx.quick else [("tri2_P1", (2, 1, 1)), ("hcp", (1, 1, 2))]):
+        sc = make_supercell(base_cells()[cname], diag, rng=rng, shuffle=True)
+        at = atoms_of(sc)
+        N = len(sc["numbers"])
+        dist = min_image_distances(np.asarray(sc["lattice"], float), np.asarray(sc["positions"], float))
+        shells = sorted(set(np.round(dist[dist > 1e-8], 6).tolist()))
+        if len(shells) < 3:
+            continue
+        mids = [(a + b) / 2 for a, b in zip(shells[:-1], shells[1:])]
+        configs = [{3: mids[0], 4: mids[1]}, {2: mids[-1], 3: mids[1], 4: mids[0]}, {3: mids[0]}, {4: mids[0]}]
+        for cfg in configs[: (2 if ctx.quick else 4)]:
+            for orders in ((3, 4), (2, 3, 4), (2, 3), (4,)):
+                truth, ncoef, ok = {}, 0, True
+                for m in orders:
+                    try:
+                        b = classes[m](at, cutoff=cfg.get(m)).run()
+                    except (IndexError, ValueError):
+                        ok = False
+                        break
+                    nb = b.basis_set.shape[1]
+                    if nb == 0 or nb > 400:
+                        ok = False
+                        break
+                    F = np.asarray(b.compression_matrix @ b.basis_set)
+                    truth[m] = (F @ rng.normal(size=nb)).reshape((N,) * m + (3,) * m)
+                    ncoef += nb
+                if not ok:
+                    continue
+                n = 3 * int(np.ceil(ncoef / (3 * N))) + 8
+                d = rng.normal(size=(n, N, 3)) * 0.1
+                f = forces_from_fc(truth, d)
+                ctx.case({"cell": sc["name"], "facade_cutoff": {str(k): round(v, 4) for k, v in cfg.items()}, "orders": list(orders)}, nontrivial=True)
+                ctx.count("recovery-facade-cutoff")
+                rep = {"cell": sc["name"], "lattice": np.asarray(sc["lattice"]).tolist(), "positions": np.asarray(sc["positions"]).tolist(), "numbers": [int(z) for z in sc["numbers"]],
+                       "cutoff": {str(k): v for k, v in cfg.items()}, "orders": list(orders)}
+                try:
+                    o = Symfc(at, displacements=d, forces=f, cutoff=dict(cfg)).run(orders=list(orders), is_compact_fc=False)
+                except np.linalg.LinAlgError:
+                    ctx.count("skipped-singular")
+                    continue
+                except (IndexError, ValueError) as e:
+                    ctx.fail("oracle", "C05/oracle/recovery-facade-cutoff", f"{sc['name']} cutoff {cfg} orders {orders}: the facade raised {type(e).__name__}: {e} although every order's own basis set is non-empty", replay=rep, has_input=True)
+                    continue
+                for m in orders:
+                    err = float(np.abs(o.force_constants[m] - truth[m]).max() / max(np.abs(truth[m]).max(), 1e-300))
+                    if not err <= 1e-6:
+                        ctx.fail("oracle", "C05/oracle/recovery-facade-cutoff", f"{sc['name']} cutoff {cfg} orders {orders}: admissible fc{m} (basis set of order {m} built with its own radius) is not recovered through the facade (relative error {err:.2e})",
+                                 replay={**rep, "order": m, "rel_err": err}, has_input=True)
+                        break
